@@ -84,7 +84,8 @@ fn mutate_args(rng: &mut Rng, ins: &[Sig], args: &[Val]) -> Option<(Vec<Val>, &'
 
 fn case(ctx: &mut Ctx, index: u64, rng: &mut Rng) {
     ctx.count("evaluations", 1);
-    let mut rig = match rig(rng, 1 + rng.usize_below(4)) {
+    let want_ifaces = 1 + rng.usize_below(4);
+    let mut rig = match rig(rng, want_ifaces) {
         Ok(r) => r,
         Err(e) => {
             ctx.finding(index, "harness-or-hang", "-", "setup", json!({"error": e}));
@@ -181,7 +182,9 @@ fn case(ctx: &mut Ctx, index: u64, rng: &mut Rng) {
         let rs: Vec<_> = replies.iter().filter(|r| r.msg.reply_serial() == Some(c.serial)).collect();
         let detail = |extra: serde_json::Value| json!({"call": c.desc, "expected": format!("{:?}", c.expect).chars().take(600).collect::<String>(), "info": extra, "quiescent": q});
         // handler invocation
-        let ran = match &c.invocation {
+        // (calls whose handler MAY run - no INTERFACE field - take their log entry only after every call that MUST
+        // have run has taken its own: see below)
+        let ran = match c.invocation.as_ref().filter(|_| !c.invocation_optional) {
             Some(inv) => match log.iter().position(|l| l == inv) {
                 Some(k) => {
                     log.remove(k);
@@ -192,7 +195,8 @@ fn case(ctx: &mut Ctx, index: u64, rng: &mut Rng) {
             None => false,
         };
         if c.invocation.is_some() && !ran && !c.invocation_optional {
-            ctx.finding(index, "handler-did-not-run", c.kind, "-", detail(json!({"replies": rs.len(), "reply_error": rs.first().and_then(|r| r.msg.error_name().map(|s| s.to_string()))})));
+            ctx.finding(index, "handler-did-not-run", c.kind, "-", detail(json!({"replies": rs.len(), "reply_error": rs.first().and_then(|r| r.msg.error_name().map(|s| s.to_string())),
+                "wanted": format!("{:?}", c.invocation), "log_left": log.iter().map(|l| format!("{l:?}")).collect::<Vec<_>>(), "all_calls": calls.iter().map(|c| c.desc.chars().take(90).collect::<String>()).collect::<Vec<_>>()})));
             return;
         }
         // reply count
@@ -242,6 +246,11 @@ fn case(ctx: &mut Ctx, index: u64, rng: &mut Rng) {
                     }
                 }
             }
+        }
+    }
+    for c in calls.iter().filter(|c| c.invocation_optional) {
+        if let Some(k) = c.invocation.as_ref().and_then(|inv| log.iter().position(|l| l == inv)) {
+            log.remove(k);
         }
     }
     // anything left in the log is a handler that ran although it must not have
